@@ -240,7 +240,9 @@ def run(ctx):
     envs.append(({'x': MathArray([1.0, 2.0]), 'y': MathArray([3.0, 4.0]), 'a': MathArray([0.5, 0.25]), 'b': MathArray([2.0, 1.0]), 'qq': 1.0}, {'k': 1000.0, '%': 0.01}))
     funcs = {'sin': lambda v: v + 1, 'hh': lambda v: 2 * v, 'f': lambda v: v * v}
     evpool = ['x+1', '2k+1', '2k*y', 'sin(x)+2k', 'x+', 'sin(a)+2k*(b', 'qq+hh(1)', '3*1e999', 'y^2', '1/0', 'x /(y-3)', 'f(x)||2', '5%', 'zz+1', '2M',
-              '[x, y]', '[a, b] + [b, a]', '[x, y]*2', '[[1, 2], [3, 4]]*[1, 1]', '[x, y', 'x*y', '[x+1, qq]', '[1, 2] + x']
+              '[x, y]', '[a, b] + [b, a]', '[x, y]*2', '[[1, 2], [3, 4]]*[1, 1]', '[x, y', 'x*y', '[x+1, qq]', '[1, 2] + x',
+              # the same unparsable text with different spacing: each failure must speak about the string that was submitted THIS time
+              'x +', ' x+', 'x  +  ', 'a +* b', 'a+*b', ' a  +*  b ', '2 x y', '2x y', 'sin(a) +2k*(b']
     for k in range(ctx.scale(60, 800)):
         ops = []
         for _ in range(rng.randint(4, 40)):
@@ -278,6 +280,10 @@ def run(ctx):
                     except Exception as e:
                         return ('exc', type(e).__name__)
                 r, fresh = outcome(ev_shared), outcome(ev_fresh)
+            if op[0] == 'eval' and r[0] == 'err' and r[1] == 'UnableToParse' and 'Could not parse' in r[2] and ("'%s'" % op[1].strip()) not in r[2]:
+                ctx.violation('the parse error of an evaluation quotes another string than the one submitted', {'ops': [list(o) for o in ops[:i + 1]], 'kind': 'shared'}, impl=r, expected=op[1])
+                failed = True
+                break
             if r != fresh:
                 ctx.violation('outcome on the shared parser depends on history', {'ops': [list(o) for o in ops[:i + 1]], 'kind': 'shared'}, impl=r, expected=fresh)
                 failed = True
